@@ -396,6 +396,23 @@ def special_population_case(case):
             env.add_agent(a)
         tmpls = [(), ('X',), ('X', 'Y')]
         tags = (None, 0, 1, '', 2)
+    elif case['how'] == 'string_tags':
+        # tags that are strings - some of them spelled like names in the process-wide tag library ('NONE' always is, 'SHEEP'
+        # after Tags.add_tag('SHEEP')): a tag filter compares tags, it does not look names up
+        import ECAgent.Tags as TagsMod
+        if 'SHEEP' not in [n for n, _ in TagsMod.itemize()]:
+            TagsMod.add_tag('SHEEP')
+        env = m.environment
+        agents = [Core.Agent(k, m) for k in ('zero', 'none_s', 'sheep_s', 'sheep_n', 'wolf_s', 'one')]
+        for a, t in zip(agents, (0, 'NONE', 'SHEEP', TagsMod.SHEEP, 'WOLF', 1)):
+            a.tag = t
+        for a, ts in zip(agents, ('X', 'X', 'XY', 'Y', 'XY', 'X')):
+            for t in ts:
+                a.add_component(TYPES[t](a, m))
+        for a in agents:
+            env.add_agent(a)
+        tmpls = [(), ('X',)]
+        tags = (None, 0, 'NONE', 'SHEEP', TagsMod.SHEEP, 'WOLF', 'none')
     elif case['how'] == 'many_types':
         # 70 component types in one model; agents carrying types far apart in creation order, one of them taken off again
         env = m.environment
@@ -458,7 +475,7 @@ def special_population_case(case):
     real = m.random
     for tmpl in tmpls:
         targs = [types[t] for t in tmpl]
-        for tag in (tags if case['how'] in ('compound_tags', 'falsy_tags') else (None, 0, 1, 'np1', 2)):
+        for tag in (tags if case['how'] in ('compound_tags', 'falsy_tags', 'string_tags') else (None, 0, 1, 'np1', 2)):
             kw = {} if tag is None else {'tag': tag_value(tag)}
             exp = [a for a in agents if all(T in a.components for T in targs) and (tag is None or a.tag == tag_value(tag))]
             what = f'{case["how"]}: template {list(tmpl)} tag {tag}'
@@ -767,7 +784,8 @@ def run(ctx):
             ctx.report(case, v)
             return
     ctx.leg('class_churn_and_detached_env', cases=len(extra))
-    for how in ('class_component', 'odd_agents', 'derived_types', 'compound_tags', 'falsy_tags', 'many_types', 'long_templates',
+    for how in ('class_component', 'odd_agents', 'derived_types', 'compound_tags', 'falsy_tags', 'string_tags', 'many_types',
+                'long_templates',
                 'grid_unpositioned', 'space_unpositioned'):
         case = {'leg': 'special_population', 'how': how}
         ctx.traces += 1
@@ -777,7 +795,7 @@ def run(ctx):
         except Violation as v:
             ctx.report(case, v)
             return
-    ctx.leg('special_population', cases=9)
+    ctx.leg('special_population', cases=10)
     for peak, keep in ((90, 12), (300, 20)) if not ctx.small else ((90, 12),):
         for leave in ('front_to_back', 'back_to_front'):
             case = {'leg': 'shrunk', 'peak': peak, 'keep': keep, 'leave': leave}
